@@ -80,9 +80,18 @@ struct strided {
                     idx += tmp;
                 }
 
+                coordinate_t c;
+
+                for (std::size_t k = 0; k < contravariant_input_t::dimensions;
+                     ++k) {
+                    c[k] = static_cast<typename contravariant_input_t::scalar_t>(
+                        t[k]
+                    );
+                }
+
                 for (std::size_t i = 0; i < covariant_output_t::dimensions; ++i)
                 {
-                    res[idx][i] = nother.at(t)[i];
+                    res[idx][i] = nother.at(c)[i];
                 }
             },
             sizes
